@@ -52,7 +52,7 @@ class Tree:
         return {"root": self.root, "dirs": sorted(self.dirs), "files": dict(self.files)}
 
 
-def gen_tree(rng, tname, exotic=0.0):
+def gen_tree(rng, tname, exotic=0.0, pkg_bias=0.0):
     tree = Tree(tname, pick(rng, ROOTS))
     target = rng.randint(3, 26)
     max_depth = rng.randint(1, 4)
@@ -103,7 +103,7 @@ def gen_tree(rng, tname, exotic=0.0):
         elif r < 0.38:
             tree.dirs.append(f"{d}/emptydir")
     tree.pyfiles.sort()
-    _gen_imports(rng, tree)
+    _gen_imports(rng, tree, pkg_bias)
     return tree
 
 
@@ -154,7 +154,7 @@ def _wrap(rng, stmt):
     return f"def outer_{rng.randrange(100)}():\n    def inner():\n        {stmt}\n    return inner"
 
 
-def _gen_imports(rng, tree):
+def _gen_imports(rng, tree, pkg_bias=0.0):
     mods = [m for m in tree.all_modules() if "__pycache__" not in m and not m.endswith("__init__")]
     file_mods = [tree.dotted(f) for f in tree.pyfiles
                  if "__pycache__" not in f and not f.endswith("__init__.py")]
@@ -183,7 +183,11 @@ def _gen_imports(rng, tree):
             cands = [m for m in mods if m != me]
             if not cands:
                 break
-            tgt = pick(rng, cands if rng.random() < 0.4 else ([m for m in file_mods if m != me] or cands))
+            pkgs = [m for m in cands if m not in file_mods and "." in m]
+            if pkgs and rng.random() < pkg_bias:
+                tgt = pick(rng, pkgs)  # the package node itself is what gets imported
+            else:
+                tgt = pick(rng, cands if rng.random() < 0.4 else ([m for m in file_mods if m != me] or cands))
             tparts = tgt.split(".")
             r = rng.random()
             # relative forms are possible when the target lies below an ancestor package
